@@ -89,6 +89,47 @@ NEEDS = {
     "C19-m4": "per-calculator memo of resolved functions keyed by name only: one calculator evaluated with two different function lists",
     "C20-m3": "SetAsArray keeps an empty non-nil caller list with spare capacity: variant grows in place, caller appends afterwards",
     "C20-m4": "cycle guard in Equals never un-marks visited arrays: the same array object twice inside the receiver",
+    # round 3: interactions of features / options, rarely used entry points and setters, configuration order, error paths
+    "C01-m5": "decode-strings applied to every Word token: an unquoted identifier whose first and last characters coincide (tot, test) is renamed",
+    "C01-m6": "Word tokens looked up in the keyword / operator table first: quoted identifiers spelling a keyword (\"in\", \"true\")",
+    "C02-m5": "Keyword and Word cases merged in the lexical pass: a quoted identifier spelling a keyword or operator",
+    "C02-m6": "ParseTokens cuts the list at the first Eof token: a token list with an end-of-input token in the middle",
+    "C03-m5": "default variables allocated lazily, one reader uses the raw field: SetAutoVariables(false) before the first expression, then Evaluate()",
+    "C03-m6": "ClearValues stores nil instead of a Null variant: evaluation after ClearValues returns (nil, nil) or panics",
+    "C04-m5": "DeepestRead returns at end of input without Unread: a user-added symbol with an unregistered prefix, input ending inside it",
+    "C04-m6": "C++ comment state skips the look-ahead Unread at end of input: CppCommentState plugged in for '/', input ending in '/'",
+    "C05-m5": "mustache tokenizer detects a new input by scanner identity: the same scanner object rewound and fed again",
+    "C05-m6": "Ceil / Floor / Round write into the converted operand: a Double variable, then a different expression reading it",
+    "C06-m5": "DateTime = / <> compare at millisecond resolution: two instants inside one millisecond",
+    "C06-m6": "fast path 1 << exponent for base 2: 2 ^ 63 comes out negative",
+    "C07-m5": "overflow guard of milliseconds -> TimeSpan clamps one second too early: values within 854 ms of the limit",
+    "C07-m6": "DateTime -> Integer/Long through UnixNano when there is a fraction: far dates with a sub-second part",
+    "C08-m5": "constant folding of built-in calls at parse time with the parse-time manager: SetVariantOperations after SetExpression",
+    "C08-m6": "Rnd = float32(rand.Float64()): exactly 1.0 with probability 2^-25 per draw",
+    "C09-m5": "only the characters of the configured end-of-line string go to the symbol state: SetEndOfLine before the other setters, text with another line ending",
+    "C09-m6": "setters store the value before validating it: a rejected setter call followed by an accepted call of the other setter",
+    "C10-m5": "CreateVariables checks the exact key: non-empty defaults in another letter case set before the template",
+    "C10-m6": "an end tag with keyword and name loses its name: {{/if other}} closes any section",
+    "C11-m5": "lazy recount after Unread, PeekColumn left out: PeekColumn called before any other getter",
+    "C11-m6": "bulk UnreadMany does not invalidate the remembered previous-line column: UnreadMany(>=3) across a break, then single Unreads over an earlier break",
+    "C12-m5": "Unread restores the column from a one-slot memo: two line ends unread in a row (direct scanner use; not reachable through the built-in states - caught by C11)",
+    "C12-m6": "the 'missing )' error of a call quotes the function name's position instead of the offending token's",
+    "C13-m5": "AddInterval ignores a nil reference above U+00FF: SetWordChars(range, false) above U+0100 has no effect",
+    "C13-m6": "DeepestRead returns at end of input without Unread: user symbol '...' and input ending in '..'",
+    "C14-m5": "SetFieldSeparators rebuilds the word state with the default quotes: custom quotes set first, literal behind unquoted text",
+    "C14-m6": "SetQuoteSymbols stores the rejected value: rejected call, then an accepted SetFieldSeparators",
+    "C15-m5": "whitespace fast path under merge-whitespaces uses a hard-coded blank range: customised whitespace table",
+    "C15-m6": "mustache close detection by value only (after the options were applied): decode-strings and a quoted '}}'",
+    "C16-m5": "fast path in the expression symbol state keyed to the first characters of the default symbols: a symbol added later with another first character",
+    "C16-m6": "valid flag packed into bit 0x1000 of the token type: a symbol registered with a type that has that bit set",
+    "C17-m5": "adjoining registrations with the same reference merged using ==: references of non-comparable types panic",
+    "C17-m6": "state setters rewrite the character table, nil matches every empty entry: ranges configured first, then a SetXxxState on an empty slot",
+    "C18-m5": "ParseTokens re-composes the text and re-parses it: string constants and quoted identifiers lose their quotes on the token entry",
+    "C18-m6": "ClearValues clears the value objects in place: the variant the caller had added is wiped",
+    "C19-m5": "Rnd / Random draw from a per-collection rand.Rand: concurrent evaluations of one calculator calling Rnd() race",
+    "C19-m6": "the calculator appends the position to a user function's error object in place: a shared error returned twice",
+    "C20-m5": "SetAsDateTime strips the monotonic clock reading: a time.Time read from the clock",
+    "C20-m6": "SetByIndex fills a gap with one shared Null object: changing one filler in place changes the others",
 }
 
 
